@@ -27,7 +27,9 @@ def renamedCases : List (String × String) := [
   ("parseStep", "with"), ("parseJob", "with"),
   -- workflow_dispatch input attributes are collected in locals ($desc $req $def $ty $opts) and stored together
   ("parseWorkflowDispatchEvent", "description"), ("parseWorkflowDispatchEvent", "required"), ("parseWorkflowDispatchEvent", "default"),
-  ("parseWorkflowDispatchEvent", "type"), ("parseWorkflowDispatchEvent", "options")
+  ("parseWorkflowDispatchEvent", "type"), ("parseWorkflowDispatchEvent", "options"),
+  -- single-key mappings are handled by `if kv.id != "key" { unexpectedKey }`, the body then fills the struct
+  ("parseDefaults", "run"), ("parseWorkflowDispatchEvent", "inputs")
 ]
 
 /-- the accepted key set of every fixed mapping of the workflow syntax, per parse function (sorted) -/
